@@ -140,7 +140,7 @@ def inv_deep(S_, d):
 
 
 def coarse(file, qual, label, params, signals=True, cls_inv=True):
-    c = contract(file, qual, [])
+    c = contract(file, qual, [], coarse=True)
     for k, v in params.items():
         c.param(k, v)
     c.result = VAL
@@ -148,7 +148,6 @@ def coarse(file, qual, label, params, signals=True, cls_inv=True):
     c.modifies = lambda S_: [("all",)]
     if signals:
         c.sig("Exception", "may-fail")
-    c.coarse = True
     return c
 
 
